@@ -217,7 +217,19 @@ def check_driver(ctx):
                     if isinstance(st, ast.Assign) and len(st.targets) == 1 and isinstance(st.targets[0], ast.Name):
                         d[st.targets[0].id] = st.value
                 found[flag] = d
+    from . import c13
+    loops = c13.arg_loop(f, prog)
     for flag, typ in want.items():
+        # by value: what the option loop does when the argument is this flag
+        eff = c13.option_effects(m, loops[-1], flag) if loops else None
+        if eff is not None and eff[0]:
+            changed, consumed, nxt = eff
+            kinds = {k: c13.kind_of_value(v, nxt) for k, v in changed.items()}
+            ct = changed.get("clim_type")
+            ok = kinds.get("clim_file") == "input" and isinstance(ct, Rat) and symeval._strval(ct) == typ and consumed == 2
+            ctx.ob("C14.4", site, ok, "%s loads the file as climatology with clim_type '%s'" % (flag, typ), loc=prog.loc(m, f),
+                   msg="%s sets %s" % (flag, {k: str(v)[:80] for k, v in changed.items()}))
+            continue
         d = found.get(flag, {})
         ok = const(d.get("clim_type")) == typ and "clim_file" in d and "get_input(arg_next)" in norm(d["clim_file"])
         ctx.ob("C14.4", site, ok, "%s loads the file as climatology with clim_type '%s'" % (flag, typ), loc=prog.loc(m, f),
